@@ -112,6 +112,15 @@ async fn recognize(stream: &mut TcpStream) -> Result<Proxy, anyhow::Error> {
     }
 }
 
+/// Brackets enclose an IPv6 literal and nothing else; a host with a bracket that is not part of such a pair is malformed.
+fn check_brackets(host: &str) -> Result<(), anyhow::Error> {
+    match host.strip_prefix('[').and_then(|h| h.strip_suffix(']')) {
+        Some(inner) if inner.parse::<std::net::Ipv6Addr>().is_ok() => Ok(()),
+        None if !host.contains(['[', ']']) => Ok(()),
+        _ => bail!("invalid host {host} in the request target"),
+    }
+}
+
 fn recognize_http(method: &str, mut path: &str) -> Result<Proxy, anyhow::Error> {
     if "CONNECT" != method && path.starts_with('/') {
         bail!("not a proxy request: the request target {} names no host", path);
@@ -128,6 +137,7 @@ fn recognize_http(method: &str, mut path: &str) -> Result<Proxy, anyhow::Error> 
     if "CONNECT" == method {
         let h_end = path.rfind(':').ok_or_else(|| anyhow!("invalid http CONNECT uri"))?;
         let host = path[..h_end].to_owned();
+        check_brackets(&host)?;
         let port = path[h_end + 1..].parse()?;
         Ok(Proxy::Https(Address::Domain(host, port)))
     } else {
@@ -150,10 +160,12 @@ fn recognize_http(method: &str, mut path: &str) -> Result<Proxy, anyhow::Error> 
         } {
             let p_start = index + 1;
             let host = path[..index].to_owned();
+            check_brackets(&host)?;
             let port = path[p_start..].parse()?;
             Ok(Proxy::Http(Address::Domain(host, port)))
         } else {
             let host = path.to_owned();
+            check_brackets(&host)?;
             Ok(Proxy::Http(Address::Domain(host, 80)))
         }
     }
